@@ -302,10 +302,13 @@ def _patch_discharge():
             ground = [h for h in H if not _verify.has_quantifier(h)]
             nontype = [h for h in quant if not _type_only(h)]
             plans = [('', H, 1000),
+                     (f'(last 40 of {len(H)} hypotheses)', H[-40:], 1500),
                      (f'(ground + last 40 quantified non-type hypotheses of {len(H)})', ground + nontype[-40:], 2000),
                      (f'(without the {len(quant) - len(nontype)} type-only quantified hypotheses of {len(H)})', ground + nontype, 2500),
                      (f'(ground + last 120 quantified non-type hypotheses of {len(H)})', ground + nontype[-120:], 2500),
-                     (f'(last 60 of {len(H)} hypotheses)', H[-60:], 1500)]
+                     (f'(last 60 of {len(H)} hypotheses)', H[-60:], 1500),
+                     (f'(last 90 of {len(H)} hypotheses)', H[-90:], 1500),
+                     (f'(last 130 of {len(H)} hypotheses)', H[-130:], 1500)]
             for label, hyps, tmo in plans:
                 s = z3.Solver()
                 s.set('timeout', min(tmo, timeout_ms))
@@ -397,3 +400,22 @@ def _spec_eval(self, st, src, env):
 
 
 _symexec.Executor.spec_eval = _spec_eval
+
+
+# ---- `from package import name` where `name` is both a sub-module and a function re-exported by the package ------------
+# ENGINE  `from biogeme.models import mev`: the core resolves the dotted path biogeme.models.mev to the MODULE; Python binds
+#         the attribute of the package, which its __init__ has rebound to the function (`from .mev import mev`).
+_orig_import_target = _symexec.Executor.import_target
+
+
+def _import_target(self, dotted):
+    if ENABLED and self.ctx.prop in PROPS and dotted in self.repo.modules:
+        parts = dotted.split('.')
+        pkg, last = '.'.join(parts[:-1]), parts[-1]
+        mi = self.repo.modules.get(pkg)
+        if mi is not None and last in mi.imports and mi.imports[last] != dotted:
+            return _orig_import_target(self, mi.imports[last])
+    return _orig_import_target(self, dotted)
+
+
+_symexec.Executor.import_target = _import_target
